@@ -1,4 +1,5 @@
 """C03 - Thrift wire format conforms to the Apache protocol specs (structural necessary conditions against embedded spec tables)."""
+import json
 import re
 import mirlib
 import codec
@@ -125,6 +126,61 @@ def _shared_arm(b, sw, s, src_enum, src_is_int):
     return False
 
 
+def ttype_byte_conversion(rep, rule, prog):
+    """u8 -> TType: the lookup table holds Some(code i) exactly at the defined codes and the conversion consults it for every code
+    (writers emit `ttype as u8`; this is the inverse the readers use)"""
+    tt = enum_of(prog, 'thrift::TType') or {}
+    # TTYPE_LOOKUP
+    lk = None
+    for k, v in prog.statics.items():
+        if k.endswith('thrift::TTYPE_LOOKUP'):
+            lk = v
+    if lk is None:
+        rep.anchor_missing(rule, 'static TTYPE_LOOKUP')
+    else:
+        raw = bytes.fromhex(lk['hex'])
+        codes = set(tt.values())
+        for i, byte in enumerate(raw):
+            key = rule + '|TTYPE_LOOKUP[%d]' % i
+            is_some = byte in codes
+            if (i in codes and is_some and byte == i) or (i not in codes and not is_some):
+                rep.ok(rule, key, 'entry %d is %s' % (i, 'Some(code %d)' % byte if is_some else 'None'))
+            else:
+                rep.bad(rule, key, '', 'TTYPE_LOOKUP[%d] holds %s; the specification %s type code %d' % (i, ('the type with code %d' % byte) if is_some else 'None', 'defines' if i in codes else 'does not define', i))
+        if len(raw) != max(codes) + 1:
+            rep.bad(rule, rule + '|TTYPE_LOOKUP len', '', 'TTYPE_LOOKUP has %d entries for codes 0..%d' % (len(raw), max(codes)))
+    # TryFrom<u8> for TType goes through the table: the table is consulted for every code it holds (no narrower range test)
+    tf = [b for b in prog.bodies.values() if b.crate == 'pilota' and b.kind == 'AssocFn' and b.name == 'try_from' and (b.impl_self or '').endswith('thrift::TType') and 'TryFrom<u8>' in (b.raw.get('impl_trait_full') or '')]
+    key = rule + '|TryFrom<u8> for TType'
+    if len(tf) != 1 or not tt:
+        rep.anchor_missing(rule, 'impl TryFrom<u8> for TType')
+    else:
+        b = tf[0]
+        fam_b = [b] + [c for c in prog.bodies.values() if c.owner_fn == b.id and c.id != b.id]
+        uses_table = any(re.search(r'\[std::option::Option<thrift::TType>; \d+\]', json.dumps(bb)) for x in fam_b for bb in x.bbs)
+        maxc = max(tt.values())
+        narrow = []
+        for x in fam_b:
+            for bb in x.bbs:
+                t = bb['t']
+                if t['k'] != 'switch' or bb['cleanup']:
+                    continue
+                c = x.expr_op(t['o'])
+                if c[0] == 'bin' and c[1] in ('Le', 'Lt', 'Gt', 'Ge', 'Eq', 'Ne'):
+                    a1, a2 = mirlib.strip_casts(c[2]), mirlib.strip_casts(c[3])
+                    if a1[0] == 'arg' and a2[0] == 'const':
+                        k = a2[1]
+                        okc = (c[1] in ('Le', 'Gt') and k >= maxc) or (c[1] in ('Lt', 'Ge') and k >= maxc + 1)
+                        if not okc:
+                            narrow.append('%s %s %d' % (a1[2], c[1], k))
+                elif mirlib.strip_casts(c)[0] == 'arg' and t['vals']:
+                    narrow.append('match on the raw code with arms %s' % [v for v, _ in t['vals']][:6])
+        if uses_table and not narrow:
+            rep.ok(rule, key, 'every code is looked up in TTYPE_LOOKUP (no range test narrower than the table)', b.loc())
+        else:
+            rep.bad(rule, key, b.loc(), 'TryFrom<u8> for TType %s: a code the specification defines (0..=%d, e.g. uuid = 16) is rejected before / instead of being looked up' % ('tests ' + '; '.join(narrow) if narrow else 'does not consult TTYPE_LOOKUP', maxc))
+
+
 def run(ctx):
     rep = Report('C03')
     prog = mirlib.load_program([ws_facts('ws')])
@@ -142,26 +198,7 @@ def run(ctx):
             rep.bad('R03.a', key, '', '%s codes differ from the specification: %s (code, spec)' % (suffix, diff))
     tt = enum_of(prog, 'thrift::TType') or {}
     ct = enum_of(prog, 'thrift::compact::TCompactType') or {}
-    # TTYPE_LOOKUP
-    lk = None
-    for k, v in prog.statics.items():
-        if k.endswith('thrift::TTYPE_LOOKUP'):
-            lk = v
-    if lk is None:
-        rep.anchor_missing('R03.a', 'static TTYPE_LOOKUP')
-    else:
-        raw = bytes.fromhex(lk['hex'])
-        codes = set(tt.values())
-        for i, byte in enumerate(raw):
-            key = 'R03.a|TTYPE_LOOKUP[%d]' % i
-            is_some = byte in codes
-            if (i in codes and is_some and byte == i) or (i not in codes and not is_some):
-                rep.ok('R03.a', key, 'entry %d is %s' % (i, 'Some(code %d)' % byte if is_some else 'None'))
-            else:
-                rep.bad('R03.a', key, '', 'TTYPE_LOOKUP[%d] holds %s; the specification %s type code %d' % (i, ('the type with code %d' % byte) if is_some else 'None', 'defines' if i in codes else 'does not define', i))
-        if len(raw) != max(codes) + 1:
-            rep.bad('R03.a', 'R03.a|TTYPE_LOOKUP len', '', 'TTYPE_LOOKUP has %d entries for codes 0..%d' % (len(raw), max(codes)))
-    # TryFrom<u8> for TType goes through the table and rejects the rest
+    ttype_byte_conversion(rep, 'R03.a', prog)
     conversion_table(rep, 'R03.a', prog, lambda b: b.name == 'try_from' and (b.impl_self or '').endswith('thrift::TMessageType') and 'TryFrom<u8>' in (b.raw.get('impl_trait_full') or ''),
                      'TryFrom<u8> for TMessageType', None, 'TMessageType', {v: k for k, v in SPEC_MSG.items()}, True)
     conversion_table(rep, 'R03.a', prog, lambda b: b.name == 'try_from' and (b.impl_self or '').endswith('compact::TCompactType') and 'TryFrom<u8>' in (b.raw.get('impl_trait_full') or ''),
@@ -415,4 +452,5 @@ def run(ctx):
     rep.floor('R03.e', 4)
     tp.compact_typestate(rep, 'R03.f', prog, cg)
     tp.long_form_id_becomes_context(rep, 'R03.d', prog, cg)
+    tp.compact_bool_element(rep, 'R03.c', prog, cg)
     return rep
